@@ -188,6 +188,49 @@ CHECKS = {
         "out": ["real TLS"],
         "assumptions": [],
     },
+    "C12": {
+        "level_text": "Byte level: the real ctxConn.Write / ctxConn.Read retry loops run symbolically over a connection stub with an arbitrary fault "
+                      "schedule within net.Conn's contract (full writes, short writes ending in a transient timeout or a hard error at every offset, "
+                      "arbitrary read sizes with symbolic bytes, transient timeouts, EOF, hard errors): a successful Write put exactly the buffer on the "
+                      "wire once and in order, a failed one a prefix; a successful Read hands over exactly the delivered bytes. Frame level: the real "
+                      "tcpTransport.Send/Receive (with io.LimitedReader and ctxConn from their SSA, json.Encoder/Decoder as models over an abstract "
+                      "stream of frames with symbolic sizes and arbitrary fragmentation, coalescing, stalls, cuts, undecodable bytes): the receiver gets "
+                      "exactly the sent envelopes intact and in order or an error, never a fabricated, duplicated or reordered one; Send succeeds iff "
+                      "exactly one frame went out.",
+        "level_note": "Trusted: SSA->SMT executor, z3, and that json.Encoder writes one frame per call and json.Decoder re-assembles values across chunks "
+                      "(standard library). Bounds: buffers of 3 / 5 bytes, <= 2 / 3 transient timeouts per call, <= 2 / 3 frames, <= 1 / 2 arbitrary fragments "
+                      "per connection beyond which reads deliver what is available. A Read returning data together with an error and TLS are outside the claim.",
+        "runs": [
+            {"harness": "HarnessC12Write", "params": {"len": 3, "timeouts": 2}, "reach": ["c12:write-succeeded"], "tier": "quick"},
+            {"harness": "HarnessC12Read", "params": {"len": 3, "timeouts": 2}, "reach": ["c12:read-succeeded"], "tier": "quick"},
+            {"harness": "HarnessC12Send", "params": {"sends": 2, "timeouts": 2}, "reach": ["c12:send-returned"], "tier": "quick"},
+            {"harness": "HarnessC12Receive", "params": {"frames": 2, "timeouts": 1, "frag": 1}, "reach": ["c12:received-one"], "tier": "quick"},
+            {"harness": "HarnessC12Write", "grid": {"len": [4, 5]}, "params": {"timeouts": 3}, "reach": ["c12:write-succeeded"], "tier": "thorough"},
+            {"harness": "HarnessC12Read", "params": {"len": 5, "timeouts": 3}, "reach": ["c12:read-succeeded"], "tier": "thorough"},
+            {"harness": "HarnessC12Send", "params": {"sends": 3, "timeouts": 3}, "reach": ["c12:send-returned"], "tier": "thorough"},
+            {"harness": "HarnessC12Receive", "grid": {"garbage": [0, 1]}, "params": {"frames": 2, "timeouts": 2, "frag": 2}, "reach": ["c12:received-one"], "tier": "thorough"},
+        ],
+        "bounds": {"quick": {"buffer": 3, "timeouts": 2, "frames": 2, "fragments": 1}, "thorough": {"buffer": 5, "timeouts": 3, "frames": 2, "fragments": 2}},
+        "out": ["json.Encoder/Decoder internals", "a Read that returns data and an error", "the TLS record layer"],
+        "assumptions": ["net.Conn contract: Write returns err != nil when n < len(b); Read returns n >= 1 with nil error, or 0 with an error"],
+    },
+    "C16": {
+        "level_text": "The real tcpTransport.Receive / setConn with io.LimitedReader.Read and ctxConn.Read from their SSA, the decoder as a model that reads "
+                      "until the next frame is complete: read limit, frame sizes, read-ahead and every read length are symbolic integers. Verdicts: no "
+                      "Receive consumes more than ReadLimit bytes from the connection; the budget is restored after each envelope; a frame larger than "
+                      "twice the limit is rejected whatever read-ahead preceded it; a frame within the limit (JSON text plus its delimiter) is accepted "
+                      "after any predecessor and fragmentation.",
+        "level_note": "Trusted: SSA->SMT executor, z3, the decoder model (reads until a value is complete; any read length >= 1). Bounds: limit in [256, 4096], "
+                      "frame size <= 3*limit+64, <= 1 / 2 predecessors, <= 2 arbitrary fragments, <= 1 / 2 transient timeouts. An envelope is measured by its wire "
+                      "footprint (text + one delimiter byte).",
+        "runs": [
+            {"harness": "HarnessC16Budget", "params": {"pre": 1, "timeouts": 1, "frag": 2}, "reach": ["c16:oversized", "c16:within-limit"], "tier": "quick"},
+            {"harness": "HarnessC16Budget", "params": {"pre": 2, "timeouts": 2, "frag": 3}, "reach": ["c16:oversized", "c16:within-limit"], "tier": "thorough", "qtimeout": 300},
+        ],
+        "bounds": {"quick": {"predecessors": 1}, "thorough": {"predecessors": 2}},
+        "out": ["json.Decoder's real buffering policy (the model allows any read length >= 1, a superset)", "limits outside [256, 4096]"],
+        "assumptions": [],
+    },
     "C14": {
         "level_text": "Server.handleChannel is executed symbolically over the same scripted transport and callback outcomes (every failing client script, "
                       "receive errors, non-session input, Authenticate/Register errors, misconfiguration): when the session never reached established the "
